@@ -1182,8 +1182,17 @@ impl<'a> Gen<'a> {
                 // action condition refers to the existing row
                 c.action_where.push(X::Bin(b(X::QCol("t3".into(), "k".into())), BinOper::GreaterThan, b(self.int_val())));
             }
-            if self.cfg.dialect.is_none() {
-                // portable: MySQL ignores the target; keep it (it is the unique key) so that all three agree
+            if !mysql && !self.cfg.exec && self.cfg.dialect.is_some() {
+                // the conflict target may name a partial (WHERE ..) or expression index — with every action
+                if self.rng.chance(1, 4) {
+                    c.target_where.push(X::Bin(b(X::Col("k")), BinOper::GreaterThan, b(self.int_val())));
+                    if self.rng.chance(1, 3) {
+                        c.target_where.push(X::IsNull(b(X::Col("v")), true));
+                    }
+                }
+                if self.rng.chance(1, 6) {
+                    c.target_exprs.push(X::Func("LOWER", vec![X::Col("v")]));
+                }
             }
             s.conflict = Some(c);
         }
